@@ -107,9 +107,66 @@ Proof. induction l as [|a r IH]; simpl; intros H; [reflexivity|]. rewrite (H a (
 
 Lemma pull_first fuel c1 rest :
   pull (S fuel) (c1 :: rest) [] =
-    (c1 :: filter (fun c2 => negb (dominates c1 c2)) rest)
-      :: pull fuel rest (map (fun c => m_id (c_m c)) (filter (fun c2 => negb (dominates c1 c2)) rest)).
+    (c1 :: grp [c1] rest) :: pull fuel rest (map (fun c => m_id (c_m c)) (grp [c1] rest)).
 Proof. cbn [pull]. rewrite filter_all_true by (intros; reflexivity). reflexivity. Qed.
+
+(* ---- the group of the first candidate ---- *)
+Lemma grp_sub kept rest x : In x (grp kept rest) -> In x rest.
+Proof.
+  revert kept. induction rest as [|c2 r IH]; intros kept; simpl; [tauto|].
+  destruct (existsb _ kept); simpl; intros H; [right; eauto|]. destruct H as [->|H]; [now left|right; eauto].
+Qed.
+
+Lemma grp_not_dom : forall rest kept x c, In x (grp kept rest) -> In c kept -> dominates c x = false.
+Proof.
+  induction rest as [|c2 r IH]; intros kept x c Hx Hc; simpl in Hx; [destruct Hx|].
+  destruct (existsb (fun c0 => dominates c0 c2) kept) eqn:E; [eauto|].
+  destruct Hx as [->|Hx].
+  - destruct (dominates c x) eqn:Ed; [|reflexivity].
+    assert (existsb (fun c0 => dominates c0 x) kept = true) by (apply existsb_exists; eauto). congruence.
+  - eapply IH; [exact Hx|]. apply in_app_iff. now left.
+Qed.
+
+(* the members of the group do not dominate one another, in list order *)
+Lemma grp_nil_iff kept rest : grp kept rest = [] <-> forall x, In x rest -> existsb (fun c => dominates c x) kept = true.
+Proof.
+  induction rest as [|c2 r IH]; simpl; [split; [intros _ x []|reflexivity]|].
+  destruct (existsb (fun c => dominates c c2) kept) eqn:E.
+  - rewrite IH. split; [intros H x [<-|Hx]; auto|intros H x Hx; auto].
+  - split; [discriminate|]. intros H. specialize (H c2 (or_introl eq_refl)). congruence.
+Qed.
+
+Lemma grp_single_nil_iff c1 rest :
+  grp [c1] rest = [] <-> filter (fun c2 => negb (dominates c1 c2)) rest = [].
+Proof.
+  rewrite grp_nil_iff. split.
+  - intros H. apply filter_all_false. intros x Hx. specialize (H x Hx). simpl in H. rewrite orb_false_r in H. now rewrite H.
+  - intros H x Hx. simpl. rewrite orb_false_r. destruct (dominates c1 x) eqn:E; [reflexivity|].
+    assert (Hin : In x (filter (fun c2 => negb (dominates c1 c2)) rest)) by (apply filter_In; rewrite E; auto).
+    rewrite H in Hin. destruct Hin.
+Qed.
+
+(* every candidate left out of the group is dominated by a member of the group *)
+Lemma grp_out_dominated : forall rest kept x, In x rest -> ~ In x (grp kept rest) ->
+  exists c, In c (kept ++ grp kept rest) /\ dominates c x = true.
+Proof.
+  induction rest as [|c2 r IH]; intros kept x Hx Hn; [destruct Hx|]. simpl in *.
+  destruct (existsb (fun c => dominates c c2) kept) eqn:E.
+  - destruct Hx as [->|Hx].
+    + apply existsb_exists in E. destruct E as (c & Hc & Hd). exists c. split; [apply in_app_iff; now left|exact Hd].
+    + eauto.
+  - destruct Hx as [->|Hx]; [exfalso; apply Hn; now left|].
+    destruct (IH (kept ++ [c2]) x Hx) as (c & Hc & Hd); [intros H; apply Hn; now right|].
+    exists c. split; [|exact Hd]. rewrite <- app_assoc in Hc. exact Hc.
+Qed.
+
+Lemma grp_map_nodup {Y} (f : cand -> Y) : forall rest kept, NoDup (map f rest) -> NoDup (map f (grp kept rest)).
+Proof.
+  induction rest as [|c2 r IH]; intros kept H; simpl; [constructor|]. inversion H as [|? ? Hn Hr]; subst.
+  destruct (existsb _ kept); [auto|]. simpl. constructor; [|auto].
+  intros Hin. apply Hn. apply in_map_iff in Hin. destruct Hin as (y & Hy & Hin). apply in_map_iff. exists y.
+  split; [exact Hy|eapply grp_sub; eauto].
+Qed.
 
 Lemma pull_nil fuel : pull fuel [] [] = [].
 Proof. destruct fuel; reflexivity. Qed.
